@@ -56,7 +56,8 @@ CHECKS['C01'] = dict(
          'in which operations are issued from inside invocations (C02 programs) are run as well, since they are list histories too; a case is non-trivial when it contains >=1 successful remove and '
          '>=1 invocation; distinct = distinct hash of the full operation/result trace',
     jobs=JS('drv_cblist', 'asan', 'c01', 4000, 150000, M4, shards=4) + JS('drv_cblist', 'plain', 'c01', 8000, 300000, M4, seed_offset=1, shards=4)
-         + JS('drv_cblist', 'plain', 'c02', 8000, 100000, M4, seed_offset=2, shards=4),
+         + JS('drv_cblist', 'plain', 'c02', 8000, 100000, M4, seed_offset=2, shards=4)
+         + JS('drv_cblist', 'clang-asan', 'c01', 4000, 100000, M4, seed_offset=3, shards=4),
     assumptions=['model M-list (DESIGN §4) is the specification', 'single-threaded histories; concurrency is C03'],
     technique='differential runtime monitor: generated histories vs sequential reference model, structural-invariant walker, instance ledger, ASan+UBSan',
     level_text='Exploration: thousands (quick) to hundreds of thousands (thorough) of seeded operation histories over 8 policy/prototype configurations are executed on the real headers; '
@@ -71,8 +72,9 @@ CHECKS['C02'] = dict(
     rule='re-entrant programs: callbacks and enumeration functions run generated operations (append/prepend/insert/remove incl. the running, next and '
          'previous callback, already removed handles, ownsHandle, forEach, nested invoke to depth 3, other lists of the same dispatcher) chosen '
          'online from the model state; every nested result and every call is checked against per-invocation snapshot frames; non-trivial = '
-         '>=1 successful remove and >=1 invocation; distinct = distinct trace hash',
-    jobs=JS('drv_cblist', 'asan', 'c02', 16000, 300000, M4, shards=4) + JS('drv_cblist', 'plain', 'c02', 40000, 800000, M4, seed_offset=1, shards=4),
+         '>=1 successful remove and >=1 invocation; distinct = distinct trace hash; built with g++ AND clang++ (clang++ defines __GNUC__ 4, so CallbackList::operator() compiles its separate hand-unrolled "GCC 4" traversal there)',
+    jobs=JS('drv_cblist', 'asan', 'c02', 16000, 300000, M4, shards=4) + JS('drv_cblist', 'plain', 'c02', 40000, 800000, M4, seed_offset=1, shards=4)
+         + JS('drv_cblist', 'clang-asan', 'c02', 8000, 200000, M4, seed_offset=2, shards=4),
     assumptions=['model M-list snapshot semantics', 'foreign live handles are only passed to ownsHandle (documented precondition)'],
     technique='online snapshot-frame monitor over generated re-entrant programs (operations issued from inside callbacks to depth 3), ledger, ASan+UBSan',
     level_text='Exploration: re-entrant programs are generated online from the model state, so dangerous compositions (remove the running/next/previous callback, act through '
@@ -374,7 +376,8 @@ CHECKS['C19'] = dict(
     rule='C01/C02/C10 histories in which the generation counter is placed 0..40 steps before 2^32 (guarded hook) at random points - idle, inside '
          'callbacks of running nested invocations, around copy/move/swap - and the history continues; invocations in progress at an observed wrap '
          'are relaxed exactly as stated, all others strict; non-trivial = >=1 remove and >=1 invocation; distinct = trace hash',
-    jobs=JS('drv_cblist', 'asan', 'c19', 12000, 200000, M4, shards=4) + JS('drv_cblist', 'plain', 'c19', 32000, 600000, M4, seed_offset=1, shards=4),
+    jobs=JS('drv_cblist', 'asan', 'c19', 12000, 200000, M4, shards=4) + JS('drv_cblist', 'plain', 'c19', 32000, 600000, M4, seed_offset=1, shards=4)
+         + JS('drv_cblist', 'clang-asan', 'c19', 6000, 100000, M4, seed_offset=2, shards=4),
     assumptions=['the wrap is observed by reading the real counter through the guarded friend hook'],
     technique='runtime monitor with guarded counter-placement hook: histories continue across an observed 2^32 wrap; relaxed frames for in-progress invocations only',
     level_text='Exploration: the generation counter is placed 0..40 additions before 2^32 at random points (idle, inside callbacks, around copy/move/swap); thousands of real wraps are '
